@@ -61,11 +61,11 @@ def good_value(g, S, t, rnd, depth=0):
     if n == "Float":
         return rnd.choice([1.5, 0.0, -2.25, 3, 1e100])
     if n == "String":
-        return rnd.choice(["", "text", "é", "1"])
+        return rnd.choice(["", "text", "é", "1", "1\n", "line\nbreak", "quote\"", "back\\slash"])
     if n == "Boolean":
         return rnd.random() < 0.5
     if n == "ID":
-        return rnd.choice(["id1", 7, "7"])
+        return rnd.choice(["id1", 7, "7", "1\n", "-3\n", "007", " 5", "-0", "12\r", "\u0663", 2 ** 40, "9" * 25])
     d = next(x for x in S["types"] if x["name"] == n)
     if d["kind"] == "ENUM":
         return rnd.choice(d["values"])["name"]
@@ -158,6 +158,7 @@ def _chunk(seeds):
     from graphql.language import parse_const_value, parse_value
     from graphql.pyutils import Undefined
     from graphql.utilities import coerce_input_value, coerce_input_literal, value_to_literal
+    from graphql.language import parse_const_value, print_ast
     from graphql.utilities.validate_input_value import validate_input_value, validate_input_literal
     from graphql.utilities import type_from_ast
     from graphql.language import parse_type
@@ -218,6 +219,10 @@ def _chunk(seeds):
                                 back = coerce_input_literal(lit, gtype)
                                 if not same(back, coerced):
                                     viol.append(("A3-literal-of-value-coerces-differently", {"value": repr(coerced)[:80], "via_literal": repr(back)[:80]}))
+                                # the literal is something that can be written down: printed and parsed it still denotes the value
+                                back2 = coerce_input_literal(parse_const_value(print_ast(lit)), gtype)
+                                if not same(back2, coerced):
+                                    viol.append(("A3-printed-literal-of-value-coerces-differently", {"value": repr(coerced)[:80], "printed": print_ast(lit)[:80], "via_literal": repr(back2)[:80]}))
                         except Exception as e:  # noqa: BLE001
                             viol.append(("A6-value_to_literal-raises", f"{type(e).__name__}: {str(e)[:100]}"))
                 except Exception as e:  # noqa: BLE001
